@@ -143,6 +143,7 @@ type ecEnc struct {
 	OuterCurve bool // curve OID in the PKCS#8 AlgorithmIdentifier
 	InnerCurve bool // curve OID inside ECPrivateKey [0]
 	Public     bool // public key inside ECPrivateKey [1]
+	Compressed bool `json:",omitempty"` // ... in compressed point form (openssl -conv_form compressed)
 	ScalarLen  int  // 0 = fixed width; >0 explicit length (minimal / padded)
 }
 
@@ -162,7 +163,11 @@ func buildECPKCS8(c *ecref.Curve, d *big.Int, enc ecEnc) []byte {
 	}
 	if enc.Public {
 		x, y := c.BaseMult(d)
-		parts = append(parts, der.Explicit(1, der.BitStr(c.Uncompressed(x, y), 0)))
+		pt := c.Uncompressed(x, y)
+		if enc.Compressed {
+			pt = append([]byte{2 + byte(y.Bit(0))}, pt[1:1+c.ByteLen()]...)
+		}
+		parts = append(parts, der.Explicit(1, der.BitStr(pt, 0)))
 	}
 	alg := [][]byte{der.MustOID(xref.OIDEC)}
 	if enc.OuterCurve {
